@@ -198,7 +198,8 @@ def process_multipart(entity):
         ib = entity.content_type.params['boundary'].strip('"')
 
     if not re.match('^[ -~]{0,200}[!-~]$', ib):
-        raise ValueError('Invalid boundary in multipart form: %r' % (ib,))
+        raise cherrypy.HTTPError(
+            400, 'Invalid boundary in multipart form: %r' % (ib,))
 
     ib = ('--' + ib).encode('ascii')
 
